@@ -80,6 +80,11 @@ func (c *Config) Merge(from interface{}, options ...Option) error {
 	if err != nil {
 		return err
 	}
+	if c.metadata == nil {
+		// c has no source yet (e.g. NewFrom): errors about its top-level
+		// settings report the source of the first value merged into it
+		c.metadata = opts.meta
+	}
 	return mergeConfig(opts, c, other)
 }
 
